@@ -725,6 +725,41 @@ class E(Enum):
 @implementation_specific
 def f(x: E = E.b, y: E = F.a, z: E = E.a) -> bool:
     pass
+#---
+@invariant(lambda self: all(all(x > 0 for x in self.xs) for x in self.xs), "d")
+class A:
+    xs: List[int]
+    def __init__(self, xs: List[int]) -> None:
+        self.xs = xs
+#---
+@invariant(lambda self: any(all(x > 0 for x in x) for x in self.xs), "d")
+class A:
+    xs: List[List[int]]
+    def __init__(self, xs: List[List[int]]) -> None:
+        self.xs = xs
+#---
+@invariant(lambda self: all(any(y > x for y in self.xs) and all(y >= 0 for y in self.xs) for x in self.xs), "d")
+class A:
+    xs: List[int]
+    def __init__(self, xs: List[int]) -> None:
+        self.xs = xs
+#---
+@invariant(lambda self: all(all(x > 0 for x in self) for x in self), "d")
+class A(str, DBC):
+    pass
+#---
+@verification
+def f(xs: List[int]) -> bool:
+    return all(all(x > 0 for x in xs) for x in xs)
+#---
+@verification
+def f(xs: List[int]) -> bool:
+    x = 1
+    return all(x > 0 for x in xs)
+#---
+@verification
+def f(xs: List[int]) -> bool:
+    return all(xs > 0 for xs in xs)
 '''
 
 
